@@ -125,6 +125,14 @@ def check_primary_loop(repo: Repo, ob) -> None:
     for (pth, st_) in evp.run(back_stops=heads, limit=40000):
         waits_ = [e for e in st_.events if e.kind == "call" and e.callee == f"{READY}.wait"]
         if not waits_:
+            if pth[-1][0] == cfg.exit.id:
+                # spawn() posts the first task whether or not the primary thread has integrated yet, and trigger_shutdown leaves a
+                # posted task alone: both rely on the primary thread looking at the mailbox before it honours anything else
+                f0 = [e for e in st_.events if e.kind == "assign" and e.value[0] == "read" and e.value[2] == MAILBOX]
+                empty0 = bool(f0) and any(t == ("cmp", "is", f0[0].value, _NONE) and v is True for (t, v) in st_.cond)
+                if not empty0:
+                    ob.violation(fi, fi.node, "integrate_as_primary_thread can return without ever waiting for (or looking at) the mailbox: a task accepted before the primary "
+                                              "thread arrived is never executed", construct="exit before first wait", path=cfg.describe_path(pth))
             continue
         after = st_.events[st_.events.index(waits_[-1]):]
         fetches = [e for e in after if e.kind == "assign" and e.value[0] == "read" and e.value[2] == MAILBOX]
